@@ -61,6 +61,24 @@ func (g *deepcopyGen) generateType(c gengo.Context, named *types.Named) error {
 
 	defers := make([]*types.Named, 0)
 
+	if _, ok := named.Underlying().(*types.Map); ok && interfaces != "" {
+		// the copy of a defined map type is the map itself, so it is the map that has to implement the interface
+		c.RenderT(`
+func(in @Type) DeepCopyObject() @ObjectInterface {
+	if c := in.DeepCopy(); c != nil {
+		return c
+	}
+	return nil 
+}
+
+`, snippet.Args{
+			"ObjectInterface": snippet.ID(interfaces),
+			"Type":            snippet.ID(named.Obj()),
+		})
+
+		interfaces = ""
+	}
+
 	if interfaces != "" {
 		c.RenderT(`
 func(in *@Type) DeepCopyObject() @ObjectInterface {
